@@ -29,10 +29,11 @@ COQ_DIR = 'Path'
 ASSUMPTIONS = [
     'tarfile (member parsing and extraction), shutil.copy/copytree, os.symlink and the operating system are trusted: '
     'the model says WHERE each member / manifest entry is created, the sandbox listing checks it on every case',
-    'the working directory holds no symbolic links before extraction in the modelled cases (os.path.realpath of a '
-    'not yet existing path is then os.path.normpath); archives staged into a directory that already has links are '
-    'covered by the predicate only',
-    'migrated components (Job.stageIn replaces the working directory by a link in the stage directory) are outside the model',
+    'working directories that already hold symbolic links: the links are made by the harness and given to the model as '
+    '(path, lexically normalised target); accept/reject is compared with Path.Model.tar_check_pre, the created entries are '
+    'checked by the sandbox listing only',
+    'migrated components: Job.stageIn is run on a duck-typed migrated job; the statement checked (and proved, C18_migrated) is the '
+    'designed behaviour — the working directory is removed and one link appears in the stage directory — not the letter of C18',
     'Job.stageIn is driven with a duck-typed job (type, references, working directory); the DataReference objects are '
     'duck-typed (method, resolve(), stringRepresentation)',
     'ExperimentPackage is built over a duck-typed configuration (location, isExperimentPackageDirectory, manifestData)',
@@ -50,7 +51,7 @@ class Sandbox(object):
     def __init__(self):
         self.root = os.path.realpath(tempfile.mkdtemp(prefix='verif_c18_'))
         self.canon = os.path.join(os.path.dirname(self.root), 'sb')     # same depth as the real one
-        for d in ('t/work', 't/work2', 'out', 'pkg/src/deep', 'pkg/src2', 'pkg/myconf', 'loc', 'arch', 'srcs/prod/sub'):
+        for d in ('t/work', 't/work2', 'out', 'pkg/src/deep', 'pkg/src2', 'pkg/myconf', 'loc', 'arch', 'srcs/prod/sub', 'srcs/work'):
             os.makedirs(os.path.join(self.root, d))
         for f, c in (('out/secret.txt', 'secret'), ('t/work2/keep.txt', 'keep'), ('pkg/src/f.txt', '1'),
                      ('pkg/src/deep/g.txt', '22'), ('pkg/src2/h.txt', '333'), ('pkg/myconf/extra.yaml', 'a: 1\n'),
@@ -354,6 +355,46 @@ SMALL_KINDS = [('file', ''), ('dir', ''), ('sym', '..'), ('sym', 'a'), ('sym', '
                ('hard', 'x'), ('hard', '../../out/secret.txt')]
 
 
+PRE_SETS = [
+    [('prod', SB + '/out')], [('prod', SB + '/srcs/prod')], [('inl', 'a')], [('f.txt', SB + '/out/secret.txt')],
+    [('a', 'l'), ('sub', SB + '/out')],                                  # F18e
+    [('a', SB + '/t/work/l'), ('sub', SB + '/out')],
+    [('a', 'l'), ('p', SB + '/pkg/src/deep')],
+    [('d1/lnk', SB + '/out')], [('d1/up', '..')], [('d1/d2/lnk', '../../..')],
+    [('prod', SB + '/out'), ('inl', 'real')], [('loop', 'loop')], [('x', 'y'), ('y', 'x')],
+    [('back', SB + '/t/work')], [('sib', '../work2')],
+]
+
+
+def gen_pre(rng):
+    pre = rng.choice(PRE_SETS)
+    names = [r for r, _ in pre]
+    n = rng.choice(names)
+    pool = [(n + '/new.txt', 'file', ''), (n, 'file', ''), (n, 'dir', ''), (n + '/secret.txt', 'file', ''), ('other.txt', 'file', ''),
+            (n, 'sym', 'other.txt'), (n + '/s', 'sym', 'x'), ('h', 'hard', n + '/secret.txt'), ('h', 'hard', n),
+            ('l', 'sym', 'sub'), ('l', 'sym', 'p/..'), ('a/x.txt', 'file', ''), ('real', 'dir', ''), ('real/f', 'file', ''),
+            ('d1', 'dir', ''), ('d1/ok.txt', 'file', ''), ('d1/d2/ok.txt', 'file', ''), (n + 'x/new.txt', 'file', ''),
+            ('./' + n + '/./deep/new.txt', 'file', ''), ('keep.txt', 'file', ''), (SB + '/t/work/' + n + '/abs.txt', 'file', ''),
+            ('l', 'sym', 'real'), ('work2', 'sym', n)]
+    ms = [('a0', 'dir', '')] if rng.random() < 0.3 else []
+    for m in rng.sample(pool, rng.randint(1, 3)):
+        ms.append(m)
+    return pre, ms
+
+
+CORPUS_PRE = [
+    ([('a', 'l'), ('sub', SB + '/out')], [('l', 'sym', 'sub'), ('a/x.txt', 'file', '')]),                    # F18e
+    ([('a', SB + '/t/work/l'), ('sub', SB + '/out')], [('l', 'sym', 'sub'), ('a/x.txt', 'file', '')]),
+    ([('a', 'l'), ('p', SB + '/pkg/src/deep')], [('l', 'sym', 'p/..'), ('a/x.txt', 'file', '')]),
+    ([('prod', SB + '/out')], [('a', 'dir', ''), ('prod/new.txt', 'file', '')]),
+    ([('prod', SB + '/out')], [('prod', 'file', '')]),
+    ([('f.txt', SB + '/out/secret.txt')], [('f.txt', 'file', '')]),
+    ([('prod', SB + '/out')], [('h', 'hard', 'prod/secret.txt'), ('h', 'file', '')]),
+    ([('d1/lnk', SB + '/out')], [('d1/lnk/x.txt', 'file', '')]),
+    ([('prod', SB + '/out')], [('a', 'dir', ''), ('a/b.txt', 'file', ''), ('s', 'sym', 'prod'), ('prodx/new.txt', 'file', '')]),
+]
+
+
 def cmember(m):
     name, kind, link = m
     k = {'file': 'KFile', 'dir': 'KDir'}.get(kind)
@@ -368,8 +409,28 @@ def csegs(p):
     return clist([s for s in p.split('/') if s != ''], cstr)
 
 
+def pre_through_outside(work, pre_links, members):
+    """independent oracle for working directories that already hold links: some member (or hard-link target) is, or lies
+    below, an existing link that leads out of the working directory"""
+    tgt = work + os.sep
+    for rel, _ in pre_links:
+        lp = os.path.join(work, rel)
+        if (os.path.realpath(lp) + os.sep).startswith(tgt):
+            continue
+        for name, kind, link in members:
+            paths = [os.path.normpath(os.path.join(work, name))]
+            if kind == 'hard':
+                paths.append(os.path.normpath(os.path.join(work, link)))
+            if any((q + os.sep).startswith(lp + os.sep) for q in paths):
+                return True
+    return False
+
+
 def run_tar_case(ctx, raw_members, via_job, pre_link=None, fmt=tarfile.GNU_FORMAT, label='gen'):
-    """one archive staged into a fresh sandbox; returns the Coq case term or None"""
+    """one archive staged into a fresh sandbox; returns the Coq case term or None.  pre_link: links made in the working
+    directory before staging, [(path relative to the working directory, target)]"""
+    if pre_link is not None and pre_link and isinstance(pre_link[0], str):
+        pre_link = [tuple(pre_link)]
     pool = POOLS['work']
     sb = pool.acquire()
     changed = True
@@ -378,14 +439,21 @@ def run_tar_case(ctx, raw_members, via_job, pre_link=None, fmt=tarfile.GNU_FORMA
         arch = os.path.join(sb.root, 'arch', 'a.tar')
         write_archive(arch, members, fmt)
         seen = read_members(arch)
-        if pre_link is not None:
-            os.symlink(sb.real(pre_link[1]), os.path.join(sb.work, pre_link[0]))
+        pre_model = []
+        for rel, tgt in (pre_link or []):
+            lp = os.path.join(sb.work, rel)
+            if not os.path.isdir(os.path.dirname(lp)):
+                os.makedirs(os.path.dirname(lp))
+            os.symlink(sb.real(tgt), lp)
+            pre_model.append((sb.canonical(lp), sb.canonical(os.path.normpath(os.path.join(os.path.dirname(lp), sb.real(tgt))))))
+        through_out = pre_through_outside(sb.work, pre_link or [], seen)
         before = pool.snapshot(sb)
         exc = stage(sb.work, [Ref('extract', arch)], via_job)
         after = listing(sb.root, exclude=sb.work)
         changed = before != after
         canon = {'members': [[sb.canonical(n), k, sb.canonical(l)] for (n, k, l) in seen], 'via_job': via_job,
-                 'pre_link': pre_link, 'dest': sb.canonical(sb.work)}
+                 'pre_link': [[r, sb.canonical(sb.real(t))] for r, t in pre_link] if pre_link is not None else None,
+                 'dest': sb.canonical(sb.work)}
         escapes = lexical_escape(sb.work, seen)
         ctx.case(canon, nontrivial=len(seen) >= 1 and (escapes or any(k in ('sym', 'hard') for _, k, _ in seen)
                                                        or any('..' in n.split('/') or n.startswith('/') for n, _, _ in seen)))
@@ -409,7 +477,18 @@ def run_tar_case(ctx, raw_members, via_job, pre_link=None, fmt=tarfile.GNU_FORMA
         accepted = not refused
         ctx.count('tar:accepted' if exc is None else ('tar:refused' if refused else 'tar:os-error'))
         if pre_link is not None:
-            return None
+            ctx.count('tar:pre-links=%d' % len(pre_link))
+            ctx.count('tar:pre-links:' + ('accepted' if exc is None else ('refused' if refused else 'os-error')))
+            if through_out and not refused:
+                ctx.fail(canon, 'a member lying on or below a link that already exists in the working directory and leads '
+                                'outside was not refused (%s)' % ename, cls)
+            term = '(%s, %s, %s, %s)' % (csegs(sb.canonical(sb.work)),
+                                         clist(pre_model, lambda l: cpair(csegs(l[0]), csegs(l[1]))),
+                                         clist([(sb.canonical(n), k, sb.canonical(l)) for (n, k, l) in seen], cmember),
+                                         cbool(accepted))
+            ctx.sample({'pre-existing links': canon['pre_link'], 'archive': canon['members'][:5], 'accepted': accepted,
+                        'error': ename}, limit=16)
+            return ('pre', term, canon, {'accepted': accepted, 'error': ename})
         lst = None
         if exc is None:
             inside = listing(sb.work)
@@ -462,6 +541,63 @@ def run_stage_case(ctx, src_rel, method, via_job):
         pool.release(sb, changed)
 
 
+def run_migrate_case(ctx, src_rel):
+    """Job.stageIn of a migrated component: <stage>/work is removed and ONE link named by the last segment of the
+    reference appears in the stage directory <sandbox>/t; nothing else changes anywhere"""
+    import experiment.model.data as D
+    pool = POOLS['work']
+    sb = pool.acquire()
+    try:
+        src = os.path.join(sb.root, src_rel)
+        with open(os.path.join(sb.work, 'old.txt'), 'w') as fh:
+            fh.write('old')
+        stage_dir = os.path.dirname(sb.work)
+        before = listing(sb.root)
+        wd = types.SimpleNamespace(path=sb.work, stageIndex=1, experimentDirectory=None)
+        ref = Ref('link', src)
+        job = types.SimpleNamespace(
+            cid=types.SimpleNamespace(identifier='stage1.work'), type='local', isMigrated=True, workingDirectory=wd,
+            workflowGraph=None, isStaged=False,
+            componentSpecification=types.SimpleNamespace(dataReferences=[ref], inputDataReferences=[ref],
+                                                         componentDataReferences=[], producers={}))
+        try:
+            D.Job.stageIn(job, verbose=False)
+            exc = None
+        except BaseException as e:  # noqa
+            exc = e
+        after = listing(sb.root)
+        canon = {'source': os.path.join(sb.canon, src_rel), 'method': 'migrated', 'via_job': True}
+        ctx.case(canon, nontrivial=True)
+        ctx.count('stage:migrated')
+        ename = type(exc).__name__ if exc is not None else None
+        rel_work = os.path.relpath(sb.work, sb.root)
+        rel_stage = os.path.relpath(stage_dir, sb.root)
+        # the working directory itself turning from a directory into the link counts as removed + added
+        added = sorted(k for k in after if k not in before or (k == rel_work and before[k] != after[k]))
+        removed = sorted(k for k in before if k not in after)
+        altered = sorted(k for k in before if k in after and before[k] != after[k] and k != rel_work)
+        bad_removed = [k for k in removed if not (k == rel_work or k.startswith(rel_work + os.sep))]
+        if bad_removed or altered:
+            ctx.fail(canon, 'migrating a component removed or altered something other than its working directory: %s'
+                     % (bad_removed + altered)[:3])
+        expect = os.path.split(src)[1]
+        new_names = [os.path.relpath(k, rel_stage) for k in added]
+        if len(added) > 1 or (added and (os.path.dirname(added[0]) != rel_stage or new_names[0] != expect or
+                                         after[added[0]] != 'link:' + src)):
+            ctx.fail(canon, 'migrating a component created %s, expected the single link %r -> reference in the stage directory'
+                     % ([(k, after[k]) for k in added][:3], expect))
+        if exc is None and not added:
+            ctx.fail(canon, 'migration reported success but created nothing')
+        if exc is None and job.workingDirectory.path != os.path.join(stage_dir, expect):
+            ctx.fail(canon, 'the migrated working directory is %s' % job.workingDirectory.path)
+        created = new_names[0] if added else None
+        ctx.sample({'migrated': canon, 'created in stage directory': new_names, 'error': ename}, limit=20)
+        return ('(%s, %s)' % (cstr(canon['source']), copt(created, cstr) if created is not None else '(@None string)'), canon,
+                {'created': new_names, 'error': ename})
+    finally:
+        pool.release(sb, True)
+
+
 # ------------------------------------------------------------------ manifests
 KEYS_OK = ['bin', 'data', 'conf', 'data/sub', 'a/b/c', './x', 'x/.', 'x//y', 'a', 'a/b', 'ab', 'hooks', 'a.b', '.']
 KEYS_BAD = ['../x', 'a/../../x', '..', 'data/../..', SB + '/out/x', '/abs', '../x.instance2/y', '../../out/new', 'a/../b',
@@ -475,7 +611,7 @@ def gen_manifest(rng, hostile):
     keys = rng.sample(KEYS_OK, n)
     man = [(k, rng.choice(SOURCES[:6] + SOURCES[7:11])) for k in keys]
     if hostile:
-        k = rng.choice(['badkey', 'badkey', 'through', 'through_norm', 'method', 'conflink'])
+        k = rng.choice(['badkey', 'badkey', 'through', 'through_norm', 'method', 'conflink', 'conffile'])
         if k == 'badkey':
             man.insert(rng.randint(0, len(man)), (rng.choice(KEYS_BAD), rng.choice(SOURCES[:6])))
         elif k == 'through':
@@ -494,6 +630,13 @@ def gen_manifest(rng, hostile):
         elif k == 'conflink':
             man = [e for e in man if not e[0].startswith('conf')]
             man.append((rng.choice(['conf', './conf', 'conf/']), rng.choice(['myconf:link', SB + '/pkg/myconf:link'])))
+        elif k == 'conffile':
+            # the package file itself (conf/flowir_package.yaml or conf/dsl.yaml) given as a link inside a copied conf
+            man = [e for e in man if not e[0].startswith('conf')]
+            man.append((rng.choice(['conf', './conf', 'conf/']), rng.choice(['myconf:copy', 'myconf'])))
+            man.append((rng.choice(['conf/flowir_package.yaml', 'conf/dsl.yaml', './conf//flowir_package.yaml', 'conf/extra.yaml',
+                                    'conf/./dsl.yaml']),
+                        rng.choice(['src/f.txt:link', SB + '/pkg/src2/h.txt:link', 'src/f.txt:copy'])))
     seen = set()
     out = []
     for k, v in man:
@@ -503,14 +646,18 @@ def gen_manifest(rng, hostile):
     return out
 
 
-def manifest_classes(man):
-    """F18d: the target conf is a link"""
-    cl = []
+def package_file(dsl):
+    return os.path.join('conf', 'dsl.yaml' if dsl else 'flowir_package.yaml')
+
+
+def self_write_escape(man, dsl):
+    """independent oracle (F18d, fixed): a link target is <instance>/conf or the package file the deployment stores in
+    it, so that the deployment's own write would go through the link"""
     for k, v in man:
         method = v.rsplit(':', 1)[1] if ':' in v else 'copy'
-        if method == 'link' and k == 'conf':
-            cl.append('conf_target_is_a_link')
-    return cl
+        if method == 'link' and not os.path.isabs(k) and os.path.normpath(k) in ('conf', package_file(dsl)):
+            return True
+    return False
 
 
 def manifest_escape(target, man):
@@ -539,7 +686,7 @@ PACKAGING = ('FlowIRManifestSyntaxException', 'FlowIRManifestKeyIsAbsolutePath',
              'FlowIRManifestInvalidType', 'FlowIRManifestException')
 
 
-def run_manifest_case(ctx, raw_man, label):
+def run_manifest_case(ctx, raw_man, label, dsl=False):
     import experiment.model.frontends.flowir as F
     import experiment.model.storage as S
     import experiment.model.errors as E
@@ -549,8 +696,8 @@ def run_manifest_case(ctx, raw_man, label):
     try:
         man = [(sb.real(k), sb.real(v)) for k, v in raw_man]
         cman = [[sb.canonical(k), sb.canonical(v)] for k, v in man]
-        canon = {'manifest': cman}
-        cls = manifest_classes(man)
+        canon = {'manifest': cman, 'dsl': dsl}
+        cls = []
         ctx.case(canon, nontrivial=any(('..' in k.split('/')) or k.startswith('/') or '/' in k for k, _ in man) or
                  any(v.endswith(':link') for _, v in man))
         ctx.count('manifest:' + label)
@@ -567,7 +714,7 @@ def run_manifest_case(ctx, raw_man, label):
                                      manifestData={}, file_format='flowir')
         pkg = S.ExperimentPackage(conf, dict(man))
         try:
-            pkg.expandPackageToDirectory(sb.inst, 'flowir')
+            pkg.expandPackageToDirectory(sb.inst, 'dsl' if dsl else 'flowir')
             d_exc = None
         except BaseException as e:  # noqa
             d_exc = e
@@ -587,15 +734,22 @@ def run_manifest_case(ctx, raw_man, label):
                 ctx.fail(canon, 'a manifest with a target outside the instance directory (or inside a link target) passed validation', cls)
             if d_exc is None:
                 ctx.fail(canon, 'a manifest with a target outside the instance directory (or inside a link target) was deployed', cls)
+        if self_write_escape(man, dsl) and not isinstance(d_exc, E.FlowIRManifestException):
+            ctx.fail(canon, 'a manifest that makes conf or the package file inside it a link was not refused by the deployment '
+                            '(%s)' % dname, cls)
         if d_exc is None:
             missing = [k for k, _ in man if not os.path.lexists(os.path.join(sb.inst, k))]
             if missing:
                 ctx.fail(canon, 'deployment succeeded but targets %s do not exist in the instance' % missing, cls)
+            pf = os.path.join(sb.inst, package_file(dsl))
+            if os.path.islink(os.path.join(sb.inst, 'conf')) or os.path.islink(pf) or not os.path.isfile(pf):
+                ctx.fail(canon, 'deployment succeeded but %s is not a regular file of the instance' % package_file(dsl), cls)
         d_accept = not isinstance(d_exc, E.FlowIRManifestException) if d_exc is not None else True
         ctx.count('manifest:valid' if v_exc is None else 'manifest:rejected')
         ctx.count('manifest:deployed' if d_exc is None else ('manifest:deploy-refused' if not d_accept else 'manifest:deploy-os-error'))
         ctx.sample({'manifest': cman, 'validate': vname, 'deploy': dname}, limit=12)
-        term = '(%s, %s, %s)' % (clist(cman, lambda e: cpair(cstr(e[0]), cstr(e[1]))), cbool(v_exc is None), cbool(d_accept))
+        term = '(%s, %s, %s, %s)' % (clist(cman, lambda e: cpair(cstr(e[0]), cstr(e[1]))), cbool(dsl), cbool(v_exc is None),
+                                     cbool(d_accept))
         return (term, canon, {'validate': vname, 'deploy': dname})
     finally:
         pool.release(sb, changed)
@@ -623,36 +777,45 @@ CORPUS_MAN = [
     [('a', 'src:link'), ('a/.', 'src2:copy')],
     [('/abs', 'src')],
     [('bin', 'src'), ('data', 'src2:link'), ('conf', 'myconf:copy')],
-    [('conf', 'myconf:link')],                                                   # F18d (open)
+    [('conf', 'myconf:link')],                                                   # F18d
+    [('conf', 'myconf:copy'), ('conf/flowir_package.yaml', 'src/f.txt:link')],   # F18d (the package file itself is a link)
+    [('./conf/', SB + '/pkg/myconf:link')],
+    [('conf', 'myconf:copy'), ('conf/dsl.yaml', 'src/f.txt:link')],              # refused for a DSL package only
 ]
 
 
 def _explore(ctx, tar_cases, stage_cases, man_cases):
-    tar_terms, stage_terms, man_terms = [], [], []
+    tar_terms, stage_terms, man_terms, pre_terms = [], [], [], []
     try:
-        _drive(ctx, tar_cases, stage_cases, man_cases, tar_terms, stage_terms, man_terms)
+        _drive(ctx, tar_cases, stage_cases, man_cases, tar_terms, stage_terms, man_terms, pre_terms)
     finally:
         for p in POOLS.values():
             p.close()
-    _compare(ctx, tar_terms, stage_terms, man_terms)
+    _compare(ctx, tar_terms, stage_terms, man_terms, pre_terms)
 
 
-def _drive(ctx, tar_cases, stage_cases, man_cases, tar_terms, stage_terms, man_terms):
+def _drive(ctx, tar_cases, stage_cases, man_cases, tar_terms, stage_terms, man_terms, pre_terms):
     for c in tar_cases:
         r = run_tar_case(ctx, c['members'], c.get('via_job', True), c.get('pre_link'), c.get('fmt', tarfile.GNU_FORMAT),
                          c.get('label', 'gen'))
-        if r is not None:
+        if r is not None and r[0] == 'pre':
+            pre_terms.append(r[1:])
+        elif r is not None:
             tar_terms.append(r)
     for c in stage_cases:
-        stage_terms.append(run_stage_case(ctx, c['source'], c['method'], c.get('via_job', True)))
+        if c['method'] == 'migrated':
+            stage_terms.append(run_migrate_case(ctx, c['source']))
+        else:
+            stage_terms.append(run_stage_case(ctx, c['source'], c['method'], c.get('via_job', True)))
     for c in man_cases:
-        man_terms.append(run_manifest_case(ctx, c['manifest'], c.get('label', 'gen')))
+        man_terms.append(run_manifest_case(ctx, c['manifest'], c.get('label', 'gen'), c.get('dsl', False)))
 
 
-def _compare(ctx, tar_terms, stage_terms, man_terms):
-    for terms, checker, name in ((tar_terms, 'check_tar', 'C18 archives: StageReference check + created entries vs Path.Model.tar_check/created'),
+def _compare(ctx, tar_terms, stage_terms, man_terms, pre_terms):
+    for terms, checker, name in ((pre_terms, 'check_tar_pre', 'C18 archives into a working directory that holds links: StageReference check vs Path.Model.tar_check_pre'),
+                                 (tar_terms, 'check_tar', 'C18 archives: StageReference check + created entries vs Path.Model.tar_check/created'),
                                  (stage_terms, 'check_stage', 'C18 copy/link: entry created by StageReference vs Path.Model.stage_name'),
-                                 (man_terms, 'check_man', 'C18 manifests: Manifest.validate / expandPackageToDirectory vs Path.Model.validate')):
+                                 (man_terms, 'check_man2', 'C18 manifests: Manifest.validate / expandPackageToDirectory vs Path.Model.validate / deploy_ok')):
         bad = ctx.model_mismatches(HEADER, [t[0] for t in terms], checker, chunk=120, name=checker)
         for i in bad:
             ctx.disagree(terms[i][1], terms[i][2], 'model computes otherwise (see %s)' % checker, name)
@@ -680,22 +843,30 @@ def run(ctx):
     for i in range(330 if quick else 4000):
         tar_cases.append({'members': gen_hostile(rng), 'label': 'hostile', 'via_job': i % 2 == 0,
                           'fmt': rng.choice([tarfile.GNU_FORMAT, tarfile.PAX_FORMAT])})
-    # archives staged into a directory that already holds links (predicate only)
+    # archives staged into a directory that already holds links
+    for i, (pre, ms) in enumerate(CORPUS_PRE):
+        tar_cases.append({'members': ms, 'label': 'corpus-pre-existing-links', 'pre_link': pre, 'via_job': i % 2 == 0})
     for i in range(24 if quick else 200):
         pl = rng.choice([('prod', SB + '/out'), ('prod', SB + '/srcs/prod'), ('inl', 'a'), ('f.txt', SB + '/out/secret.txt')])
         nm = rng.choice([pl[0] + '/new.txt', pl[0], pl[0] + '/secret.txt', 'other.txt'])
-        tar_cases.append({'members': [('a', 'dir', ''), (nm, 'file', '')], 'label': 'pre-existing-link', 'pre_link': pl,
+        tar_cases.append({'members': [('a', 'dir', ''), (nm, 'file', '')], 'label': 'pre-existing-link', 'pre_link': [pl],
                           'via_job': i % 2 == 0})
+    for i in range(150 if quick else 2000):
+        pre, ms = gen_pre(rng)
+        tar_cases.append({'members': ms, 'label': 'pre-existing-links', 'pre_link': pre, 'via_job': i % 2 == 0})
     stage_cases = [{'source': s, 'method': m, 'via_job': (i + j) % 2 == 0}
                    for i, s in enumerate(STAGE_SOURCES) for j, m in enumerate(['copy', 'link', 'copyout'])]
-    man_cases = [{'manifest': m, 'label': 'corpus'} for m in CORPUS_MAN]
+    # migrated components: the reference's last segment names the link made in the stage directory (sources whose last
+    # segment is the name of an existing sibling are left out: os.symlink then fails before anything is created)
+    stage_cases += [{'source': s, 'method': 'migrated'} for s in STAGE_SOURCES + ['srcs/work', 'srcs/work/']]
+    man_cases = [{'manifest': m, 'label': 'corpus', 'dsl': dsl} for m in CORPUS_MAN for dsl in (False, True)]
     for k in KEYS_OK + KEYS_BAD:
         for s in ('src', 'src2:link'):
             man_cases.append({'manifest': [(k, s)], 'label': 'single'})
     for i in range(120 if quick else 1500):
-        man_cases.append({'manifest': gen_manifest(rng, False), 'label': 'benign'})
+        man_cases.append({'manifest': gen_manifest(rng, False), 'label': 'benign', 'dsl': rng.random() < 0.3})
     for i in range(240 if quick else 3000):
-        man_cases.append({'manifest': gen_manifest(rng, True), 'label': 'hostile'})
+        man_cases.append({'manifest': gen_manifest(rng, True), 'label': 'hostile', 'dsl': rng.random() < 0.3})
     _explore(ctx, tar_cases, stage_cases, man_cases)
     ctx.count('cases', len(tar_cases) + len(stage_cases) + len(man_cases))
 
@@ -715,9 +886,10 @@ def replay(ctx, path):
         return s.replace(canon, SB)
     if 'members' in c:
         tar_cases.append({'members': [(unc(n), k, unc(l)) for n, k, l in c['members']], 'via_job': c.get('via_job', True),
-                          'pre_link': tuple(c['pre_link']) if c.get('pre_link') else None, 'label': 'replay'})
+                          'pre_link': [(r, unc(t)) for r, t in c['pre_link']] if c.get('pre_link') is not None else None,
+                         'label': 'replay'})
     elif 'manifest' in c:
-        man_cases.append({'manifest': [(unc(k), unc(v)) for k, v in c['manifest']], 'label': 'replay'})
+        man_cases.append({'manifest': [(unc(k), unc(v)) for k, v in c['manifest']], 'label': 'replay', 'dsl': c.get('dsl', False)})
     elif 'source' in c:
         stage_cases.append({'source': c['source'].split('/sb/', 1)[1], 'method': c['method'], 'via_job': c.get('via_job', True)})
     _ = canon_root
